@@ -469,8 +469,10 @@ class Verdict:
         if ev["coverage"]["states"] < 1:
             ev["coverage"]["states"] = 0
         if self.write_evidence:
-            os.makedirs(os.path.join(VERIF, "evidence"), exist_ok=True)
-            json.dump(ev, open(os.path.join(VERIF, "evidence", self.pid + ".json"), "w"), indent=1)
+            # runs against a scratch copy of the repository (mutants) keep their evidence with their build
+            edir = os.path.join(VERIF, "evidence") if REPO == "/repo" else os.path.join(BUILD, "evidence")
+            os.makedirs(edir, exist_ok=True)
+            json.dump(ev, open(os.path.join(edir, self.pid + ".json"), "w"), indent=1)
         for what, replay in real:
             log("VIOLATION property=%s replay=%s  # %s" % (self.pid, replay, what))
         return 1 if real else 0
